@@ -120,7 +120,7 @@ def jobs(tier, seed, excluded=()):
     rng = random.Random(seed)
     skip = [r for r in excluded]
     if tier == "quick":
-        dom = Dom(int_max=9, int_cands=["007", "-3"], str_mode="cand", str_cands=["", 'q"t', "b\\s"], hex_cands=["0x1f", "0X1F", "1f"], float_cands=["5", "1e3", "-0.5"])
+        dom = Dom(int_max=9, int_cands=["007", "-3"], str_mode="cand", str_cands=["", 'q"t', "b\\s", "n", "y"], hex_cands=["0x1f", "0X1F", "1f"], float_cands=["5", "1e3", "-0.5"])
         out = state_jobs("C07", "vk.props.c07", "agree", ["T13", "T13b"], dom, 250, 3, 120, rng, {"skip": skip})
         out += state_jobs("C07", "vk.props.c07", "agree", ["T01", "T05", "T07", "T04"], dom, 120, 1, 90, rng, {"skip": skip})
     else:
